@@ -1,3 +1,33 @@
-From Oal Require Import Tag.
-Theorem C11_placeholder : True. Proof. exact I. Qed.
-Print Assumptions C11_placeholder.
+(** Property C11 — the syntax tree is lossless and every reported span is exact.
+
+    Proved here, for every grammar of the embedding, every token list and fuel: the leaves of
+    the matches a parser returns are exactly the non-trivia tokens between the start cursor
+    and the returned cursor, in source order, each once; cursors move forward only and rest
+    on non-trivia tokens ([yield]); for the oal grammar the leaves of the program tree are
+    the non-trivia tokens of the parsed prefix. A node's span in grammar.rs is computed from
+    its first and last leaf, so it is the hull of its leaves by construction. Carried by the
+    monitor on the real tokenizer (logos-generated, not modelled): tokens and lexical-error
+    spans tile the text on character boundaries, token values are source slices, diagnostic
+    spans lie in the text. *)
+From Oal Require Import Peg Grammar PegProofs PegYield GrammarProofs.
+Local Open Scope nat_scope.
+
+Theorem C11_yield :
+  forall class_ok is_trivia K g toks n p s acc s' ms,
+  aligned is_trivia toks s -> s <= length toks ->
+  run class_ok is_trivia K g toks n p s acc = Ok s' ms ->
+  s <= s' /\ s' <= length toks /\ aligned is_trivia toks s' /\ leaves_of ms = ntriv is_trivia toks s s'.
+Proof. exact yield. Qed.
+Print Assumptions C11_yield.
+
+Theorem C11_oal_yield : forall n toks s' ms,
+  parse_pure n toks = Ok s' ms ->
+  s' <= length toks /\ leaves_of ms = ntriv Grammar.is_trivia toks 0 s'.
+Proof. exact oal_yield. Qed.
+Print Assumptions C11_oal_yield.
+
+Theorem C11_leaves_in_source_order :
+  forall is_trivia toks s e i j, nth_error (ntriv is_trivia toks s e) i <> None -> nth_error (ntriv is_trivia toks s e) j <> None -> i < j ->
+  forall a b, nth_error (ntriv is_trivia toks s e) i = Some a -> nth_error (ntriv is_trivia toks s e) j = Some b -> a < b.
+Proof. exact ntriv_sorted. Qed.
+Print Assumptions C11_leaves_in_source_order.
